@@ -35,6 +35,10 @@ pub fn opt_sets(m: &Module) -> Vec<(String, String)> {
         return v;
     }
     v.push(("default".into(), "{}".into()));
+    if m.name.starts_with("fixture/") || m.name.starts_with("w2/state/") {
+        // the host gave no configuration at all (plugin/src/lib.rs: `.unwrap_or_default()`)
+        v.push(("absent".into(), crate::sched::NO_CONFIG.into()));
+    }
     v.push((
         "all".into(),
         r#"{"transformOn":true,"optimize":true,"mergeProps":true,"enableObjectSlots":true,"resolveType":true,"customElementPatterns":["^x-","^El[A-Z]"]}"#.into(),
